@@ -117,7 +117,7 @@ def shrink_case(case, exe, still0, budget_s=45):
 
 def run(ctx):
     quick = ctx.tier == "quick"
-    n_per = 2500 if quick else 60000
+    n_per = 2500 if quick else 250000
     n_mal = 12 if quick else 300
     ctx.assumptions += [
         "model: Async/Task.v transcribes async_support.rs / spawn*.rs / inter_task_wakeup*.rs / waitable.rs (for the five operations of the driver) and futures-util 0.3.32 FuturesUnordered::poll_next; host = Async/Host.v (Coq twin of rtmock)",
